@@ -46,6 +46,11 @@ NONINTERFERENCE_ONLY = [
 CORO_DEFUSE = [
     ("coro-cross-state", ["t = self.in0 & self.in1", "await self.in2", "self.trace <<= 1", "if t:", "    self.seen <<= 3"], "reject"),
     ("coro-same-state", ["await self.in2", "t = self.in0 & self.in1", "if t:", "    self.seen <<= 3"], "any"),
+    # accepted or not is cohdl's choice here; if accepted the 2-safety query must hold (no state reads what another state computed)
+    ("coro-await-dynamic-index", ["await self.trace[v]", "self.seen <<= 3"], "any"),
+    ("coro-await-dynamic-index-later", ["self.trace <<= 5", "await self.in0", "v @= v + 1", "await self.trace[v]", "self.seen <<= 3"], "any"),
+    ("coro-explicit-temporary-across-await", ["t = cohdl.Temporary[Unsigned[3]](cnt + 1, maybe_uninitialized=True)", "await self.in2", "self.seen <<= t"], "any"),
+    ("coro-explicit-temporary-same-state", ["await self.in2", "t = cohdl.Temporary[Unsigned[3]](cnt + 1, maybe_uninitialized=True)", "self.seen <<= t"], "any"),
     ("coro-branch-def-then-await", ["if self.in0:", "    t = self.in1 | self.in2", "    await self.in2", "    if t:", "        self.trace <<= 2"], "reject"),
 ]
 
